@@ -79,6 +79,9 @@ func genBoostsC13(r *Rng, dbWords, qWords []string) map[string]float64 {
 		}
 	}
 	m := map[string]float64{}
+	// one map in seven also carries factors outside the property's range (< 1, zero, negative): only the
+	// candidate clause and the model correspondence apply to those pairs (they pin the `b > 0` guard)
+	odd := r.Chance(1, 7)
 	for i, n := 0, r.Range(1, 5); i < n; i++ {
 		var w string
 		switch x := r.Intn(10); {
@@ -90,6 +93,9 @@ func genBoostsC13(r *Rng, dbWords, qWords []string) map[string]float64 {
 			w = Pick(r, []string{"zzz", "nomatch", "compress", "list", "Git", ""})
 		}
 		m[strings.ToLower(w)] = Pick(r, []float64{1, 1.1, 1.3, 1.5, 1.8, 2, 2.0, 2.5, 3, 10, 1000, 1.0000000000000002})
+		if odd && (i == 0 || r.Bool()) {
+			m[strings.ToLower(w)] = Pick(r, []float64{0.5, 0.25, 0.9, 0.999, 0, -1, 1e-9})
+		}
 	}
 	return m
 }
